@@ -175,7 +175,8 @@ THOROUGH = Sizes(tables=6, columns=7, indexes=4, enums=3, items=5, refs=8, group
 def schemas(draw, features: FrozenSet[str] = BASE_FEATURES, sizes: Sizes = QUICK, min_tables: int = 0,
             want_refs: bool = True) -> ASchema:
     F = features
-    props_on = _has(F, 'props')
+    # the library has twin grammars (with / without arbitrary properties): a third of the documents go through the default one
+    props_on = _has(F, 'props') and draw(st.integers(0, 2)) > 0
     ml_set = _has(F, 'multiline_settings_note')
     # enums -----------------------------------------------------------------------------
     ekeys = draw(st.lists(st.tuples(st.sampled_from(SCHEMAS), names(F)), max_size=sizes.enums,
